@@ -35,6 +35,8 @@ func main() {
 		runCmd(os.Args[2:])
 	case "check":
 		checkCmd(os.Args[2:])
+	case "replay":
+		replayCmd(os.Args[2:])
 	case "warm":
 		e, err := loadEngine("/repo", "/verif")
 		if e != nil {
@@ -104,3 +106,49 @@ func runCmd(args []string) {
 }
 
 
+
+
+// replayCmd re-executes the single path recorded in a counterexample file against /repo's current working
+// tree and reports whether the assertion is violated again.
+func replayCmd(args []string) {
+	if len(args) < 1 {
+		fmt.Println("usage: gosym replay <cex.json>")
+		os.Exit(2)
+	}
+	var cex struct {
+		Property string            `json:"property"`
+		AssertID string            `json:"assert_id"`
+		Harness  string            `json:"harness"`
+		Trace    []engine.Decision `json:"trace"`
+		Notes    []string          `json:"notes"`
+	}
+	if err := readJSON(args[0], &cex); err != nil {
+		fmt.Println("cannot read", args[0], err)
+		os.Exit(2)
+	}
+	e, err := loadEngine("/repo", "/verif")
+	if e != nil {
+		defer e.Cleanup()
+	}
+	if err != nil {
+		fmt.Println("LOAD ERROR:", err)
+		os.Exit(3)
+	}
+	for _, sp := range e.SSA {
+		if fn := sp.Func(cex.Harness); fn != nil {
+			x := &engine.Explorer{E: e, Harness: fn, MaxPaths: 1, Workers: 1, SolverKind: "z3", TimeoutMs: 30000, Known: map[string]bool{}, Seed: cex.Trace}
+			r := x.Run()
+			fmt.Print(r.Summary())
+			for _, v := range r.Violations {
+				if v.AssertID == cex.AssertID {
+					fmt.Printf("REPRODUCED property=%s assert=%s on the current tree (witness: %s)\n", cex.Property, cex.AssertID, witnessText(v))
+					os.Exit(1)
+				}
+			}
+			fmt.Printf("NOT REPRODUCED property=%s assert=%s on the current tree\n", cex.Property, cex.AssertID)
+			os.Exit(0)
+		}
+	}
+	fmt.Println("harness not found:", cex.Harness)
+	os.Exit(2)
+}
